@@ -80,8 +80,8 @@ type pstate struct {
 	blocks []int
 	onPath map[*ssa.BasicBlock]bool
 	curBlk int
-	stack  []frame     // inlined calls in progress (innermost last)
-	unroll map[int]int // loop header -> iterations unrolled so far on this path (headers in concrete mode)
+	stack  []frame           // inlined calls in progress (innermost last)
+	unroll map[int]int       // loop header -> iterations unrolled so far on this path (headers in concrete mode)
 	strEq  map[string]string // term key -> the string literal it is known to equal on this path
 }
 
@@ -166,23 +166,24 @@ func (s *pstate) clone() *pstate {
 }
 
 type Explorer struct {
-	W        *World
-	Fn       *ssa.Function
-	MaxPaths int
-	paths    []*Path
-	headers  map[int]bool
-	backEdge map[[2]int]bool
-	unkID    int64
-	Err      error
-	NoInline bool
-	steps    int
-	closures map[int64]closureVal // closures created on the way, by the id in their term
-	arrays   map[int64][]arrEntry // element facts of arrays copied as whole values
-	private  map[string]bool      // allocations no callee can reach (variables captured only by closures expanded in place)
-	resolved *ssa.Function        // callee of the dynamic call being recorded, when its function value is known
-	invPhi   map[*ssa.Phi]*T // loop-invariant header phis of the loop being entered
-	probing  bool // evaluating a loop header to see whether its test is decided
-	probeC   *T
+	W            *World
+	Fn           *ssa.Function
+	MaxPaths     int
+	paths        []*Path
+	headers      map[int]bool
+	backEdge     map[[2]int]bool
+	unkID        int64
+	Err          error
+	NoInline     bool
+	steps        int
+	closures     map[int64]closureVal // closures created on the way, by the id in their term
+	arrays       map[int64][]arrEntry // element facts of arrays copied as whole values
+	private      map[string]bool      // allocations no callee can reach (variables captured only by closures expanded in place)
+	resolved     *ssa.Function        // callee of the dynamic call being recorded, when its function value is known
+	resolvedRecv *T                   // ... and the receiver bound into it, for a method value
+	invPhi       map[*ssa.Phi]*T      // loop-invariant header phis of the loop being entered
+	probing      bool                 // evaluating a loop header to see whether its test is decided
+	probeC       *T
 	// Bind lets a client pre-bind parameters to terms.
 	Bind map[*ssa.Parameter]*T
 }
@@ -956,6 +957,13 @@ func (e *Explorer) runFrom(b *ssa.BasicBlock, pred int, from int, s *pstate, sta
 			e.unkID++
 			s.regs[in] = &T{Op: "makechan", C: e.unkID, A: []*T{e.val(s, in.Size)}, Ty: in.Type()}
 		case *ssa.MakeClosure:
+			// a method value (l.lexInput): the method itself names the state; the receiver is the machine
+			if f, ok := in.Fn.(*ssa.Function); ok && strings.HasSuffix(f.Name(), "$bound") && f.Synthetic != "" && len(in.Bindings) == 1 {
+				if m := boundMethod(e.W, f); m != nil {
+					s.regs[in] = &T{Op: "fn", S: fnKey(m), A: []*T{e.val(s, in.Bindings[0])}, Ty: in.Type()}
+					continue
+				}
+			}
 			e.unkID++
 			ct := &T{Op: "closure", S: in.Fn.String(), C: e.unkID, Ty: in.Type()}
 			var binds []*T
@@ -996,6 +1004,7 @@ func (e *Explorer) runFrom(b *ssa.BasicBlock, pred int, from int, s *pstate, sta
 		case *ssa.Call:
 			callee := in.Call.StaticCallee()
 			var cv *closureVal
+			var boundRecv *T
 			if callee != nil && callee.Parent() != nil && !in.Call.IsInvoke() {
 				// a function literal called where it was made: expand it with its captured variables
 				if fv := e.val(s, in.Call.Value); fv.Op == "closure" {
@@ -1010,6 +1019,9 @@ func (e *Explorer) runFrom(b *ssa.BasicBlock, pred int, from int, s *pstate, sta
 				switch fv := e.val(s, in.Call.Value); fv.Op {
 				case "fn":
 					callee = e.W.funcByKey(fv.S)
+					if len(fv.A) == 1 {
+						boundRecv = fv.A[0] // a method value: its receiver was fixed when the value was made
+					}
 				case "closure":
 					if c, ok := e.closures[fv.C]; ok && e.W.closureInlinable(c.fn) {
 						callee, cv = c.fn, &c
@@ -1018,6 +1030,9 @@ func (e *Explorer) runFrom(b *ssa.BasicBlock, pred int, from int, s *pstate, sta
 			}
 			if callee != nil && (cv != nil || e.shouldInline(s, callee)) && !e.onStack(s, callee) {
 				var args []*T
+				if boundRecv != nil {
+					args = append(args, boundRecv)
+				}
 				for _, a := range in.Call.Args {
 					args = append(args, e.val(s, a))
 				}
@@ -1044,9 +1059,10 @@ func (e *Explorer) runFrom(b *ssa.BasicBlock, pred int, from int, s *pstate, sta
 			}
 			if callee != nil && in.Call.StaticCallee() == nil && cv == nil {
 				e.resolved = callee // the function value resolved on this path
+				e.resolvedRecv = boundRecv
 			}
 			e.call(s, in, &in.Call, in, rb)
-			e.resolved = nil
+			e.resolved, e.resolvedRecv = nil, nil
 			if cal := in.Call.StaticCallee(); cal != nil && cal.Pkg != nil && cal.Pkg.Pkg.Path() == "os" && cal.Name() == "Exit" {
 				e.finish(s, start, "exit", nil)
 				return
@@ -1484,6 +1500,9 @@ func (e *Explorer) callEvent(s *pstate, kind string, in ssa.Instruction, c *ssa.
 		ev.Callee = callee
 	} else if e.resolved != nil {
 		ev.Callee = e.resolved
+		if e.resolvedRecv != nil {
+			args = append(args, e.resolvedRecv)
+		}
 	} else {
 		ev.Method = "<dynamic>"
 		args = append(args, e.val(s, c.Value))
@@ -2022,4 +2041,18 @@ func embeddedStruct(f *types.Var) bool {
 	}
 	_, ok := f.Type().Underlying().(*types.Struct)
 	return ok
+}
+
+// boundMethod: the method a "$bound" wrapper (a method value) calls.
+func boundMethod(w *World, wrapper *ssa.Function) *ssa.Function {
+	for _, b := range wrapper.Blocks {
+		for _, in := range b.Instrs {
+			if c, ok := in.(*ssa.Call); ok {
+				if cal := c.Call.StaticCallee(); cal != nil && w.inPkgs(cal) {
+					return cal
+				}
+			}
+		}
+	}
+	return nil
 }
